@@ -84,14 +84,16 @@ def rerun(cfg, ops):
     """Re-execute ops on a fresh implementation (annotations recomputed)."""
     from harness.impl_driver import Impl, thash
     impl = Impl(cfg)
-    out_ops, parts_all = [], []
+    out_ops, parts_all, cleared = [], [], []
     for op in ops:
         if op[0] == 'Receive':
             op = ('Receive', [(e[0], None) + tuple(e[2:]) for e in op[1]])
         aop, parts = impl.apply(t2._clamp(op))
         out_ops.append(aop)
         parts_all.append(parts)
-    return {'cfg': cfg, 'ops': out_ops, 'parts': parts_all, 'hashes': [[thash(x) for x in parts] for parts in parts_all]}
+        cleared.append(impl.cleared)
+    return {'cfg': cfg, 'ops': out_ops, 'parts': parts_all, 'cleared': cleared,
+            'hashes': [[thash(x) for x in parts] for parts in parts_all]}
 
 
 def shrink(prog, parts, tag, budget=14):
